@@ -8,10 +8,12 @@ with the done test, instance creation, `treeStorage.Set` after creation), `nodeD
 Steps of an arrival thread: `lookup` = `getAndRefresh` (cancels an armed removal), `found` = the
 `transmitMux` region up to and including the listing of a new instance, `set` = `treeStorage.Set`
 followed by the constructor call and the hand-over (still inside `transmitMux`, so no other thread
-takes a `found` step meanwhile).  Core-only. -/
+takes a `found` step meanwhile), `bind` = the protocol constructor has returned: the protocol instance
+is registered and the message handed over.  Between `set` and `bind` the instance is listed but not
+yet bound to a protocol.  Core-only. -/
 namespace C11
 
-inductive Pc where | lookup | found | set | fin deriving DecidableEq, Repr
+inductive Pc where | lookup | found | set | bind | fin deriving DecidableEq, Repr
 
 structure Th where
   tok : Nat
@@ -41,13 +43,19 @@ inductive Act where
 
 def at_ (p : Pc) (t : Th) : Bool := t.pc == p
 
+/-- thread `t` is inside the creation of instance `tok` (listed, constructor not yet returned) -/
+def regTok (tok : Nat) (t : Th) : Bool := (t.pc == .set || t.pc == .bind) && t.tok == tok
+
+/-- thread `t` holds `transmitMux` (local starts, `m = 0`, do not take it) -/
+def holdsMux (t : Th) : Bool := (t.pc == .set || t.pc == .bind) && t.m != 0
+
 def stepTh (s : St) (i : Nat) (t : Th) : Option St :=
   match t.pc with
   | .lookup =>
       some { s with armed := false,
                     thr := s.thr.set i { t with pc := if s.present then .found else .fin } }
   | .found =>
-      if 0 < s.thr.countP (at_ .set) then none      -- `transmitMux` is held by a creating thread
+      if 0 < s.thr.countP holdsMux then none      -- `transmitMux` is held by a creating thread
       else if t.tok ∈ s.doneToks then
         -- late message: dropped; the removal cancelled by the lookup is scheduled again
         some { s with armed := if s.live = [] then true else s.armed,
@@ -59,7 +67,9 @@ def stepTh (s : St) (i : Nat) (t : Th) : Option St :=
   | .set =>
       some { s with present := true, armed := false,
                     settled := if t.tok ∈ s.live then s.settled ++ [t.tok] else s.settled,
-                    constructed := s.constructed ++ [t.tok],
+                    thr := s.thr.set i { t with pc := .bind } }
+  | .bind =>
+      some { s with constructed := s.constructed ++ [t.tok],
                     handed := if t.m = 0 then s.handed else s.handed ++ [(t.tok, t.m)],
                     thr := s.thr.set i { t with pc := .fin } }
   | .fin => none
@@ -71,7 +81,8 @@ def step (s : St) : Act → Option St
       | some t => stepTh s i t
       | none => none
   | .done tok =>
-      if tok ∈ s.settled then
+      -- an instance can declare itself done once its constructor has returned
+      if tok ∈ s.settled ∧ s.thr.countP (regTok tok) = 0 then
         let live' := s.live.filter (· != tok)
         some { s with live := live', settled := s.settled.filter (· != tok),
                       doneToks := s.doneToks ++ [tok],
@@ -106,7 +117,18 @@ def findThr (x : St) (tok m : Nat) : Option Nat :=
   (List.range x.thr.length).find? fun i => match x.thr[i]? with
     | some t => t.tok == tok && t.m == m && t.pc != .fin | none => false
 
-def pcName : Pc → String | .lookup => "lookup" | .found => "found" | .set => "set" | .fin => "fin"
+def pcName : Pc → String
+  | .lookup => "lookup" | .found => "found" | .set => "set" | .bind => "ctor" | .fin => "fin"
+
+/-- let thread i go on through `Set` (and, unless `stopAtCtor`, through the constructor) -/
+def finish (x : St) (i : Nat) (stopAtCtor : Bool) : St :=
+  let x1 := match x.thr[i]? with
+    | some t => if t.pc = .set then (C11.step x (.thread i)).getD x else x
+    | none => x
+  if stopAtCtor then x1 else
+  match x1.thr[i]? with
+  | some t => if t.pc = .bind then (C11.step x1 (.thread i)).getD x1 else x1
+  | none => x1
 
 /-- ops: `arrive <tok> <m>` (thread runs to its hook point after the lookup), `thread <tok> <m>`
 (the `transmitMux` region to its end), `done <tok>`, `wait` (longer than the grace period: the
@@ -132,13 +154,35 @@ def step (st : State) (toks : List String) : State × String :=
         match C11.step x (.thread i) with
         | some x1 =>
           -- a creating thread goes on through `Set`, the constructor and the hand-over
-          let x2 := match x1.thr[i]? with
-            | some t => if t.pc = .set then (C11.step x1 (.thread i)).getD x1 else x1
-            | none => x1
+          let x2 := finish x1 i false
           ({ s := x2 }, s!"pc={(x2.thr[i]?.map (fun t => pcName t.pc)).getD "?"} {obs x2}")
         | none => (st, "disabled")
       | none => (st, "disabled")
     | _, _ => (st, "bad-op")
+  -- like `thread`, but the protocol constructor does not return yet (`ctorret` lets it)
+  | ["threadc", tok, m] =>
+    match tok.toNat?, m.toNat? with
+    | some tok, some m =>
+      match findThr x tok m with
+      | some i =>
+        match C11.step x (.thread i) with
+        | some x1 =>
+          let x2 := finish x1 i true
+          ({ s := x2 }, s!"pc={(x2.thr[i]?.map (fun t => pcName t.pc)).getD "?"} {obs x2}")
+        | none => (st, "disabled")
+      | none => (st, "disabled")
+    | _, _ => (st, "bad-op")
+  | ["ctorret", tok] =>
+    match tok.toNat? with
+    | some tok =>
+      match (List.range x.thr.length).find? (fun i => match x.thr[i]? with
+              | some t => t.tok == tok && t.pc == .bind | none => false) with
+      | some i =>
+        match C11.step x (.thread i) with
+        | some x1 => ({ s := x1 }, s!"pc=fin {obs x1}")
+        | none => (st, "disabled")
+      | none => (st, "disabled")
+    | none => (st, "bad-op")
   | ["done", tok] =>
     match tok.toNat? with
     | some tok =>
@@ -159,7 +203,7 @@ def step (st : State) (toks : List String) : State × String :=
       match C11.step x (.localStart tok) with
       | some x1 =>
         let i := x1.thr.length - 1
-        let x2 := (C11.step x1 (.thread i)).getD x1
+        let x2 := finish x1 i false
         ({ s := x2 }, obs x2)
       | none => (st, "disabled")
     | none => (st, "bad-op")
